@@ -40,6 +40,29 @@ def check_pair(t, s, v):
     return None
 
 
+def src_term(t):
+    from ..codec import src
+    return src(t)
+
+
+def operands_after_derivation(t):
+    """Builds the derived term keeping every intermediate object, then judges each OPERAND object
+    (not the result) against the model of its own term."""
+    from ..terms import Builder
+    b = Builder(track=True)
+    try:
+        result = b.build(t)
+    except Exception:  # noqa: BLE001
+        return
+    for obj in list(b.keep):
+        ot = b.ids.get(id(obj))
+        if obj is result or ot is None or ot[0] not in ("dict", "list", "any"):
+            continue
+        vals, _ = value_universe(ot, 24)
+        for v in vals:
+            yield ot, obj, v, check_pair(ot, obj, v)
+
+
 def worker(shard, nshards, tier, seed):
     acc = Acc()
     U = universe(tier)
@@ -68,6 +91,13 @@ def worker(shard, nshards, tier, seed):
             acc.outcome((i, len(vals), a, tname(v)))
         if 0 < n_acc < len(vals):
             acc.count("schemas_with_both_verdicts")
+        if t[0] in ("mkreq", "add", "or", "subst"):
+            # the operands a schema was derived from still mean what they were declared to mean
+            for ot, obj, v, sig in operands_after_derivation(t):
+                acc.count("operand_pairs_after_derivation")
+                if sig:
+                    acc.violation(sig + "|operand-after-derivation",
+                                  case_tv(ot, v, derived=src_term(t)))
         if i % 97 == 0:
             acc.sample({"schema": show(t), "values": len(vals), "accepted_by_model": n_acc})
     return acc
@@ -113,6 +143,10 @@ def run(tier, seed):
 
 
 def replay(case):
+    if "derived" in case:
+        ot, v = unsrc(case["term"]), unsrc(case["value"])
+        return [sig + "|operand-after-derivation" for o2, _, v2, sig in
+                operands_after_derivation(unsrc(case["derived"])) if sig and repr(o2) == repr(ot)]
     t, v = unsrc(case["term"]), unsrc(case["value"])
     s, err = try_build(t)
     if s is None:
